@@ -5,7 +5,7 @@
    and SPF have no Coq model: they are covered by the implementation-vs-grammar run of harness/c18.py.  Statements only. *)
 From Coq Require Import ZArith List Bool String Permutation.
 From Coq.Strings Require Import Byte.
-From CP Require Import Core.Bytes Core.Result Text.Field Spec.FieldSpec Lemmas.FieldLemmas Lemmas.FvmLemmas Lemmas.FieldTables.
+From CP Require Import Core.Bytes Core.Result Text.Field Spec.FieldSpec Lemmas.FieldLemmas Lemmas.FvmLemmas Lemmas.FieldTables Lemmas.StsLemmas.
 From CPGen Require Import Tables.
 Import ListNotations.
 Open Scope Z_scope.
@@ -115,3 +115,31 @@ Theorem C18_pinned_exact_match_refuted :
   res_params (fvm semi cookie_schema_pinned (b "Expires=x; domain=example.com"))
   <> res_params (fvm semi cookie_schema_pinned (b "expires=x; Domain=example.com")).
 Proof. exact pinned_exact_match_refuted. Qed.
+
+(* ---- end to end for Strict-Transport-Security: from the text to (max-age seconds, includeSubDomains, preload) ---- *)
+(* sts_parse models HttpHeaderFieldValueSTS.parse_exact_size including the value classes of its three components; every
+   spelling of directives with distinct names gives the value it spells, so two spellings of one value agree *)
+Theorem C18_sts_end_to_end : forall segs k ds inc pre,
+  forallb (seg_ok SEMI) segs = true ->
+  let d := map nvp (seg_items segs) in
+  NoDup (lnames d) ->
+  lookup_ci sts_canon_max_age d = Some (k, Some ds) -> ds <> nil -> all_digits ds = true -> dec_val ds <= timedelta_max_seconds ->
+  flag_state sts_canon_include d inc -> flag_state sts_canon_preload d pre ->
+  sts_parse (spell SEMI segs) = Ok (dec_val ds, inc, pre).
+Proof. exact sts_end_to_end. Qed.
+
+Theorem C18_sts_spellings_agree : forall segs1 segs2 k1 k2 ds inc pre,
+  forallb (seg_ok SEMI) segs1 = true -> forallb (seg_ok SEMI) segs2 = true ->
+  NoDup (lnames (map nvp (seg_items segs1))) -> NoDup (lnames (map nvp (seg_items segs2))) ->
+  lookup_ci sts_canon_max_age (map nvp (seg_items segs1)) = Some (k1, Some ds) ->
+  lookup_ci sts_canon_max_age (map nvp (seg_items segs2)) = Some (k2, Some ds) ->
+  ds <> nil -> all_digits ds = true -> dec_val ds <= timedelta_max_seconds ->
+  flag_state sts_canon_include (map nvp (seg_items segs1)) inc -> flag_state sts_canon_include (map nvp (seg_items segs2)) inc ->
+  flag_state sts_canon_preload (map nvp (seg_items segs1)) pre -> flag_state sts_canon_preload (map nvp (seg_items segs2)) pre ->
+  sts_parse (spell SEMI segs1) = sts_parse (spell SEMI segs2).
+Proof. exact sts_spellings_agree. Qed.
+
+Theorem C18_sts_example :
+  sts_parse (list_byte_of_string "PRELOAD	; ;  foo=bar;MAX-AGE=""31536000"" ;includesubdomains;") = Ok (31536000, true, true)
+  /\ sts_parse (list_byte_of_string "max-age=31536000; includeSubDomains; preload") = Ok (31536000, true, true).
+Proof. exact sts_example. Qed.
